@@ -1,12 +1,14 @@
 """C04 -- Validity ranges never overlap; decertify removes exactly the requested range.
 
 Obligations: coq/Props/C04.v (model coq/Model/Calib.v over the regenerated Timespan comparisons of C11).
-Tie T : Gen/TimespanGen.v is regenerated (C11's translator); the Calib model calls the regenerated
-        `py_overlaps` / `py_isEmpty`, so the theorems are re-proved against what the code says now.
+Tie T : Gen/TimespanGen.v is regenerated (C11's translator) and Gen/CalibDiffGen.v (harness/translators/calib_diff.py:
+        Timespan.intersection / Timespan.difference); the Calib model calls the regenerated `py_overlaps` /
+        `py_isEmpty` / `py_difference`, so the theorems are re-proved against what the code says now.
 Tie K : histories of certify / decertify / removeDatasets run on a REAL SQLite registry (worker subprocesses)
         and on the Coq model (vm_compute); after EVERY step: outcome class, raw dataset_calibs_* rows,
-        find_dataset(timespan=probe) for every probe, ordered-path lookups, (some histories) the new query
-        system's find-first search with a temporal constraint.
+        find_dataset(timespan=probe) for every probe, ordered-path lookups, lookups through CHAINED collections and
+        paths that mix CALIBRATION, RUN and TAGGED collections (Model/CalibPath.v xlookup), (some histories) the new
+        query system's find-first search with a temporal constraint over one collection and over ordered paths.
 Oracle: independent interval bookkeeping on the elementary cells of the endpoint grid, written from the
         property statement (harness/props/c04.py: Book).
 """
@@ -17,6 +19,7 @@ import json
 from pathlib import Path
 
 from harness.common import VERIF, Ctx, clist, cn, copt, cz, parallel_workers, run_worker
+from harness.translators import calib_diff as trd
 from harness.translators import timespan as tr
 
 MX = 4102444800000000000
@@ -28,8 +31,8 @@ NDID = 3
 # CHAINED 5 = [1, 0], 6 = [0, 2], 8 = [5, 4, 0]; 3 = TAGGED (always empty here)
 RUN_K = {2: 0, 4: 1}
 CHAINS = {5: [1, 0], 6: [0, 2], 8: [5, 4, 0]}
-XPATHS_FIXED = [[8], [6]]
-XPATHS_POOL = [[5], [2, 0], [0, 4, 1], [6, 5], [3, 1, 0], [1, 6], [4, 5], [8, 1]]
+XPATHS_FIXED = [[8]]
+XPATHS_POOL = [[6], [5], [2, 0], [0, 4, 1], [6, 5], [3, 1, 0], [1, 6], [4, 5], [8, 1]]
 QD_PATHS = [[5], [0, 1]]
 
 
@@ -388,9 +391,9 @@ def gen_history(rng, g: Grid, length: int, qd: bool):
     n1 = len(probes)
     hist = {"ops": ops, "probes": probes, "keys": keys, "paths": [[0, 1], [1, 0]],
             "path_probes": sorted(rng.sample(range(n1 - 6), 2)) + list(range(n1 - 4, n1))}
-    # search paths with CHAINED / RUN / TAGGED collections: probes = 2 instants, the empty span, everything, 2 grid spans
+    # search paths with CHAINED / RUN / TAGGED collections: probes = an instant, the empty span or everything, 2 grid spans
     hist["xpaths"] = XPATHS_FIXED + rng.sample(XPATHS_POOL, 2)
-    hist["xpath_probes"] = sorted(rng.sample(range(n1 - 6), 2)) + [n1 - 6, n1 - 5] + sorted(rng.sample(range(n1 - 4, n1), 2))
+    hist["xpath_probes"] = [rng.randrange(n1 - 6), rng.choice([n1 - 6, n1 - 5])] + sorted(rng.sample(range(n1 - 4, n1), 2))
     if qd:
         hist["query_datasets"] = True
         hist["qd_probes"] = sorted(rng.sample(range(n1), 6))
@@ -583,7 +586,9 @@ def run(ctx: Ctx):
         "concurrent writers belong to C20); a table is a multiset of rows; ON DELETE CASCADE removes the rows of a deleted dataset",
         "the SQL overlap predicate equals Timespan.overlaps (theorem sql_agrees_overlaps of C11, same regenerated definitions)",
         "dataset ids, collection and dataset type names are abstracted to small numbers; the autoincrement key of dataset_calibs_* is not modelled",
-        "translator harness/translators/timespan.py (Python ast -> Gallina) is trusted; its output is compared with the implementation by C11",
+        "translators harness/translators/timespan.py and harness/translators/calib_diff.py (Python ast -> Gallina) are trusted; "
+        "the output of the first is compared with the implementation by C11, the second (Timespan.difference) through every decertify of the correspondence",
+        "chain definitions and RUN membership are fixed per history (the fixture's CHAINED 5/6/8, RUN 2/4); a TAGGED collection in a path is empty",
     ]
     ctx.cov["rule"] = (
         "a history (certify / decertify / removeDatasets on a real SQLite registry, timespans from every endpoint order type of a "
@@ -592,6 +597,7 @@ def run(ctx: Ctx):
         "distinct by the hash of its op list"
     )
     gen_ok = ctx.regen("timespan", tr.translate)
+    ctx.regen("calib_diff", trd.translate)   # Timespan.intersection / difference -> Gen/CalibDiffGen.v (used by decertify's model)
     props_ok = ctx.build_props(extra_targets=["Model/CalibCheck.vo"])
     if not props_ok:
         from harness.common import coq_make
@@ -624,8 +630,8 @@ def run(ctx: Ctx):
         corpus.append({"ops": rep["ops"], "probes": rep.get("probes") or base["probes"], "keys": rep.get("keys") or [[0, 0, 0], [0, 0, 1]],
                        "paths": rep.get("paths") or [[0, 1], [1, 0]], "path_probes": list(range(0, len(base["probes"]), 3)),
                        "query_datasets": True, "qd_probes": list(range(0, len(base["probes"]), 4)), "qd_paths": QD_PATHS,
-                       "xpaths": rep.get("xpaths") or (XPATHS_FIXED + XPATHS_POOL),
-                       "xpath_probes": rep.get("xpath_probes") or list(range(0, len(base["probes"]), 3)) + [len(base["probes"]) - 6],
+                       "xpaths": rep.get("xpaths") or (XPATHS_FIXED + XPATHS_POOL[:5]),
+                       "xpath_probes": rep.get("xpath_probes") or list(range(0, len(base["probes"]) - 6, 5)) + [len(base["probes"]) - 6],
                        "corpus_file": f.name, "_grid": g})
     if corpus:
         cg = [h.pop("_grid") for h in corpus]
